@@ -286,3 +286,11 @@ define_hasher!(Skein256, Threefish256, U32, 256);
 define_hasher!(Skein512, Threefish512, U64, 512);
 #[rustfmt::skip]
 define_hasher!(Skein1024, Threefish1024, U128, 1024);
+
+/// Verification hook (off unless built with `--cfg cryptocorrosion_verif`): makes crate-private items
+/// and state reachable from the external contract harnesses in $CRYPTOCORROSION_VERIF_DIR. Add-only.
+#[cfg(cryptocorrosion_verif)]
+#[doc(hidden)]
+pub mod verif_incrate {
+    include!(concat!(env!("CRYPTOCORROSION_VERIF_DIR"), "/incrate/skein_hash.rs"));
+}
